@@ -109,10 +109,13 @@ Verdict check_alloc(const Plan& plan, Stats& st) {
             if (!ok) break;
             if (fired) { any_fault = true; st.fault("backend_fail", (unsigned long long)fired); }
             bool backend_failed = g.hs.failed != failed_before;
-            (void)hdr_ovf; (void)reqs;
+            (void)hdr_ovf;
             if (ovf) {
                 if (res) fail(i, "calloc with an overflowing element-count product returned non-NULL");
                 else if (errno != ENOMEM) fail(i, "calloc with an overflowing element-count product did not set errno to ENOMEM (errno=" + std::to_string(errno) + ")");
+                // the true product is not representable, so whatever size reached the backend was a wrapped one: had the backend granted
+                // it (a real one may), the caller would hold a block smaller than nmemb x size
+                else if (reqs) fail(i, "calloc with an overflowing element-count product asked the backend for a (wrapped) size instead of refusing");
                 st.probe("size_overflow_refused");
                 break;
             }
@@ -142,7 +145,7 @@ Verdict check_alloc(const Plan& plan, Stats& st) {
             errno = entry_errno(i, ovf);
             call_begin(i, -1, mid, fp);
             LIBCALL_RUN({ res = (unsigned char*)(arr ? mem->reallocarray(mem, old, n1, n2) : mem->realloc(mem, old, n1)); }, ok);
-            int fired = g.cur->fired; call_end();
+            int fired = g.cur->fired, reqs = g.cur->req_count; call_end();
             if (!ok) break;
             if (fired) { any_fault = true; st.fault("backend_fail", (unsigned long long)fired); }
             bool backend_failed = g.hs.failed != failed_before;
@@ -155,6 +158,7 @@ Verdict check_alloc(const Plan& plan, Stats& st) {
             if (ovf) {
                 if (res) fail(i, "reallocarray with an overflowing product returned non-NULL");
                 else if (errno != ENOMEM) fail(i, "reallocarray with an overflowing product did not set errno to ENOMEM (errno=" + std::to_string(errno) + ")");
+                else if (reqs) fail(i, "reallocarray with an overflowing product asked the backend for a (wrapped) size instead of refusing");
                 old_intact(); st.probe("size_overflow_refused");
                 break;
             }
